@@ -99,6 +99,21 @@ class Provenance:
             if base:
                 return {f'DERIVED({t})' for t in base}
             return tags - {'LITERAL'} or {'LITERAL'}
+        if isinstance(e, ast.Call) and isinstance(
+                e.func, ast.Attribute) and e.func.attr == 'format' and \
+                isinstance(e.func.value, ast.Constant) and isinstance(
+                    e.func.value.value, str):
+            # '{}.tmp-{}'.format(x, y): like the f-string
+            tags = set()
+            for a in list(e.args) + [k_.value for k_ in e.keywords]:
+                tags |= self.of(mod, func, a, depth)
+            base = {t for t in tags if t in ('OUTFILE', 'INFILE')}
+            if base:
+                return {f'DERIVED({t})' for t in base}
+            if 'TMP' in tags:
+                return {'TMP'}
+            return {'LITERAL'} if not tags - {'LITERAL', 'UNKNOWN-LOCAL'} \
+                else tags
         if isinstance(e, ast.Call):
             nm = call_name(e) or ''
             if nm in ('os.path.join', 'os.path.dirname', 'os.path.abspath',
